@@ -262,6 +262,7 @@ pub fn apply_child_op(s: &mut Sim, pid: i32, op: &mut ChildOp) -> (i64, i32) {
             (0, 0)
         }
         ChildOp::Other { .. } => (-1, libc::ENOSYS),
+        ChildOp::Sleep { .. } => (0, 0),
     }
 }
 
@@ -322,7 +323,23 @@ pub fn apply_preexec(s: &mut Sim, pid: i32) {
         }
     };
     let mut terminal = false;
-    for c in report.calls.iter() {
+    let start = s.k.proc(pid).preexec_pos;
+    s.k.proc_mut(pid).preexec_wake = None;
+    for (ci, c) in report.calls.iter().enumerate().skip(start) {
+        if let ChildOp::Sleep { ns } = &c.op {
+            if *ns > 0 {
+                // the forked copy of the parent, with everything the parent had open, takes a nap
+                let until = s.k.now.saturating_add(*ns);
+                let p = s.k.proc_mut(pid);
+                p.preexec_pos = ci + 1;
+                p.preexec_wake = Some(until);
+                p.report = Some(report);
+                s.k.probe("sleep_between_fork_and_exec");
+                s.k.touch();
+                return;
+            }
+            continue;
+        }
         let mut op = c.op.clone();
         let (ret, errno) = apply_child_op(s, pid, &mut op);
         if matches!(op, ChildOp::Write { .. }) && c.ret >= 0 && (ret, errno) == (-1, libc::EPIPE) {
@@ -942,7 +959,12 @@ unsafe fn sleep_impl(t: u8, ns: u64, absolute: bool) -> Option<u64> {
 pub unsafe extern "C" fn nanosleep(req: *const libc::timespec, rem: *mut libc::timespec) -> c_int {
     match ctx() {
         Ctx::Real => real!(nanosleep: fn(*const libc::timespec, *mut libc::timespec) -> c_int)(req, rem),
-        Ctx::Child => 0,
+        Ctx::Child => {
+            let _g = Guard::new();
+            let ns = ((*req).tv_sec as u64).saturating_mul(1_000_000_000).saturating_add((*req).tv_nsec as u64);
+            child_call(ChildOp::Sleep { ns });
+            0
+        }
         Ctx::Par(t) => {
             let _g = Guard::new();
             let ns = (*req).tv_sec as u64 * 1_000_000_000 + (*req).tv_nsec as u64;
@@ -965,7 +987,14 @@ pub unsafe extern "C" fn nanosleep(req: *const libc::timespec, rem: *mut libc::t
 pub unsafe extern "C" fn clock_nanosleep(clk: c_int, flags: c_int, req: *const libc::timespec, rem: *mut libc::timespec) -> c_int {
     match ctx() {
         Ctx::Real => real!(clock_nanosleep: fn(c_int, c_int, *const libc::timespec, *mut libc::timespec) -> c_int)(clk, flags, req, rem),
-        Ctx::Child => 0,
+        Ctx::Child => {
+            let _g = Guard::new();
+            let ns = ((*req).tv_sec as u64).saturating_mul(1_000_000_000).saturating_add((*req).tv_nsec as u64);
+            // (an absolute deadline is taken relative to the time of the fork)
+            let ns = if flags & libc::TIMER_ABSTIME != 0 { ns.saturating_sub(sim().k.now) } else { ns };
+            child_call(ChildOp::Sleep { ns });
+            0
+        }
         Ctx::Par(t) => {
             let _g = Guard::new();
             let ns = ((*req).tv_sec as u64).saturating_mul(1_000_000_000).saturating_add((*req).tv_nsec as u64);
